@@ -9,16 +9,16 @@ MUST_NOT_RAISE = True
 BUDGET_S = {"quick": 420, "thorough": 3000}
 BOUNDS = {
     "quick": "1 rank; 1..3 device activities, every class assignment over {computation, communication, memory} "
-             "with >= 1 communication kernel; ts,dur symbolic Int in [0,2^52); one host operator with symbolic span",
+             "with >= 1 communication kernel; ts,dur symbolic Int in [0,2^40]; one host operator with symbolic span",
     "thorough": "1..4 device activities on 1 rank (all class assignments) and 2 ranks x (<=2 activities each); "
-                "ts,dur symbolic Int in [0,2^52)",
+                "ts,dur symbolic Int in [0,2^40]",
 }
 EXPLANATION = ("Real TraceAnalysis.get_comm_comp_overlap (CommunicationAnalysis.get_comm_comp_overlap, "
                "merge_kernel_intervals, get_kernel_type) run on traces loaded through the real Trace.load_traces; "
                "obligation: reported pct = round(100*num/den,2) with num = |U comm ∩ U comp| and den = |U comm| "
                "(inclusion-exclusion oracle), 0 <= pct <= 100. Non-trivial path = admits 0 < overlap < comm time.")
 ASSUMPTIONS = ["precondition: total communication time > 0 (ratio undefined otherwise)",
-               "timestamps/durations are integers in [0, 2^52)",
+               "timestamps/durations are integers in [0, 2^40]",
                "round(x,2) modelled as any real within 0.005 of x; float rounding error of the division ignored",
                "JSON reading stubbed (parse_trace_dict returns the symbolic event list)"]
 STUBS = ["hta.common.trace_parser.parse_trace_dict", "Trace._validate_trace_files", "plotly", "logging"]
